@@ -61,22 +61,22 @@ Theorem C03_apply_fix_defined : forall (text : list N) chs,
 Proof. exact apply_fix_defined. Qed.
 Print Assumptions C03_apply_fix_defined.
 
-(* jsx-props-no-spread-multi: on a boundary if one single-byte character and `{` precede the spread ... *)
-Theorem C03_spread_fix_range_on_boundary : forall pre w spread post,
-  is_ascii w = true ->
-  let text := pre ++ [w; LBRACE] ++ spread ++ [RBRACE] ++ post in
-  let s := bytes pre + 2 in let e := s + bytes spread in
-  exists c, spread_change s e = Some c /\
+(* jsx-props-no-spread-multi (token-based range): always on char boundaries ... *)
+Theorem C03_spread_fix_range_on_boundary : forall pre gap inner post oe cs,
+  let text := pre ++ (gap ++ [LBRACE] ++ inner ++ [RBRACE]) ++ post in
+  let open := Some (true, bytes (pre ++ gap), oe) in
+  let close := Some (true, cs, bytes pre + bytes (gap ++ [LBRACE] ++ inner ++ [RBRACE])) in
+  exists c, spread_change open close (Some (bytes pre)) = Some c /\
     apply_fix (utf8 text) [ch_bytes c] = Some (utf8 (pre ++ post)) /\
     boundary text (fst (fst c)) /\ boundary text (snd (fst c)).
 Proof. exact spread_fix_range_ok. Qed.
 Print Assumptions C03_spread_fix_range_on_boundary.
 
-(* ... and not in general (second component: start inside U+3000) *)
-Theorem C03_spread_fix_range_refuted :
+(* ... historic: the fixed offsets start-2 / end+1 of the code before the fix were not (start inside U+3000) *)
+Theorem C03_spread_fix_range_before_fix_refuted :
   exists pre spread post c,
       let text := pre ++ [LBRACE] ++ spread ++ [RBRACE] ++ post in
-      spread_change (bytes pre + 1) (bytes pre + 1 + bytes spread) = Some c /\
+      spread_change_before_fix (bytes pre + 1) (bytes pre + 1 + bytes spread) = Some c /\
       ~ boundary text (fst (fst c)).
-Proof. exact spread_fix_range_refuted. Qed.
-Print Assumptions C03_spread_fix_range_refuted.
+Proof. exact spread_fix_range_before_fix_refuted. Qed.
+Print Assumptions C03_spread_fix_range_before_fix_refuted.
